@@ -1,8 +1,8 @@
-import CalVerif.Lemmas.FormatsCompose
+import CalVerif.Lemmas.FormatsDecode
 /-! # C10 — a number is typed DateTime exactly when its cell style is a date/time format
     Property theorems (unit level: the format classifier, the built-in id tables, the value wrapping). -/
 namespace Formats
-open NumFmt
+open NumFmt StylesEnc
 
 /-! ## built-in ids (tables regenerated from `src/formats.rs` on every run) -/
 
@@ -314,6 +314,126 @@ example :
       = .ok [.other, .other, .timeDelta, .dateTime, .dateTime, .other] ∧
     xlsbStyles (defs.map fun d => (d.1, render d.2)) [0, 14, 164, 165, 22, 200]
       = .ok [.other, .dateTime, .timeDelta, .dateTime, .dateTime, .other] := by decide +kernel
+
+/-! ## the decoders of the style tables: from the bytes / records / events of the styles part
+
+    `Model/FormatsDecode.lean` models what stands in front of the style-table builders: xls `parse_xf` /
+    `parse_format` and the FORMAT / XF arms of the globals loop, the record loop of xlsb `read_styles`, the event loop
+    of xlsx `read_styles`. (a) none of them panics, on any input; (b) on the encoding of a style table
+    (`Spec/StylesEnc.lean`) they return the table the builders make from the logical lists, whatever stands in the
+    inert places; (c) so the property's sentence starts at the styles part. -/
+
+/-- (a) xls: `parse_xf`, `parse_format`, the globals loop over any record list / any stream never panic -/
+theorem xls_parse_xf_no_panic (data : Bytes) (m : String) : xlsParseXf data ≠ .panic m := xlsParseXf_ne_panic data m
+theorem xls_parse_format_no_panic (data : Bytes) (m : String) : xlsParseFormat data ≠ .panic m :=
+  xlsParseFormat_ne_panic data m
+theorem xls_styles_records_no_panic (recs : List (Nat × Bytes)) (m : String) : xlsStylesOfRecords recs ≠ .panic m :=
+  xlsStylesOfRecords_ne_panic recs m
+theorem xls_styles_stream_no_panic (stream : Bytes) (m : String) : xlsStylesOfStream stream ≠ .panic m :=
+  xlsStylesOfStream_ne_panic stream m
+
+/-- (a) xlsb: `read_styles` panics on no byte string (short records, wrong counts, truncated parts are errors) -/
+theorem xlsb_styles_bytes_no_panic (part : Bytes) (m : String) : xlsbStylesOfBytes part ≠ .panic m :=
+  xlsbStylesOfBytes_ne_panic part m
+
+/-- (a) xlsx: `read_styles` panics on no event list, and always ends with a table or an error -/
+theorem xlsx_styles_events_no_panic (evs : List SEv) (m : String) : xlsxStylesOfEvents evs ≠ .panic m :=
+  xlsxStylesOfEvents_ne_panic evs m
+theorem xlsx_styles_events_total (evs : List SEv) :
+    (∃ t, xlsxStylesOfEvents evs = .ok t) ∨ (∃ e, xlsxStylesOfEvents evs = .err e) :=
+  xlsxStylesLoop_total evs .top [] []
+
+/-- (b) xls: FORMAT / XF records in any interleaving with other records (narrow or wide strings, any XF tail), up to
+    the EOF record: the decoded table is `xlsStyles` of the formats and XF ids in file order -/
+theorem xls_styles_roundtrip (items : List XlsItem) (hwf : ∀ i ∈ items, i.WF) (after : List (Nat × Bytes)) :
+    xlsStylesOfRecords (xlsEncode items after) = xlsStyles (xlsFormatsOf items) (xlsXfsOf items) :=
+  xlsStylesOfRecords_enc items hwf after
+
+/-- (b) xlsb: the bytes of a styles part — any records before the format table, between it and the cell XFs (the
+    cell-STYLE XF block with its own BrtXF records among them) and after the cell XFs, any legal framing — decode
+    to `xlsbStyles` of the description -/
+theorem xlsb_styles_roundtrip (d : StyleDesc) (l : XlsbLayout) (hd : d.WFb) (hl : l.WF) :
+    xlsbStylesOfBytes (xlsbEncode d l) = xlsbStyles d.formats d.xfs := xlsbStylesOfBytes_enc d l hd hl
+
+/-- (b) xlsx: the events of a styles part — anything without a `numFmts` / `cellXfs` start tag in the inert places
+    (cellStyleXfs with `<xf numFmtId=…>`, dxfs with `<numFmt>` elements of clashing ids, fonts, extLst), other
+    attributes and children of `<xf>`, either attribute order of `<numFmt>`, any namespace prefix — decode to
+    `xlsxStyles` of the description (ids as their decimal text) -/
+theorem xlsx_styles_roundtrip (d : StyleDesc) (l : XlsxLayout) (hl : l.WF) :
+    xlsxStylesOfEvents (xlsxEncode d l) =
+      xlsxStyles (d.formats.map fun f => (decimal f.1, f.2)) (d.xfs.map fun x => some (decimal x)) :=
+  xlsxStylesOfEvents_enc d l hl
+
+/-- (c) **from the styles part to the cell**: custom formats of the grammar written into a styles part of each
+    container, the table decoded from that part, a float cell with style index `i`: it is typed by the logical style
+    table (`logicalXlsx / logicalXlsb / logicalXls`: last definition of the id, else the documented built-in class;
+    xlsb built-in first; index past the table = plain number) -/
+theorem cell_typed_from_styles_part :
+    (∀ (defs : List (Nat × Fmt)) (xfs : List Nat) (l : XlsxLayout) (formats : List CellFormat),
+      (∀ d ∈ defs, WF d.2) → (∀ d ∈ defs, render d.2 ≠ []) → l.WF →
+      xlsxStylesOfEvents (xlsxEncode ⟨defs.map fun d => (d.1, render d.2), xfs⟩ l) = .ok formats →
+      ∀ (i : Nat) (v : UInt64) (d1904 : Bool), formatF64 v formats[i]? d1904 =
+        typedF64 (((xfs.map fun x => some (decimal x))[i]?.map
+          (logicalXlsx (defs.map fun d => (decimal d.1, d.2)))).getD .other) v d1904) ∧
+    (∀ (defs : List (Nat × Fmt)) (xfs : List Nat) (l : XlsbLayout) (formats : List CellFormat),
+      (∀ d ∈ defs, WF d.2) → (StyleDesc.mk (defs.map fun d => (d.1, render d.2)) xfs).WFb → l.WF →
+      xlsbStylesOfBytes (xlsbEncode ⟨defs.map fun d => (d.1, render d.2), xfs⟩ l) = .ok formats →
+      ∀ (i : Nat) (v : UInt64) (d1904 : Bool), formatF64 v formats[i]? d1904 =
+        typedF64 ((xfs[i]?.map (logicalXlsb defs)).getD .other) v d1904) ∧
+    (∀ (defs : List (Nat × Fmt)) (items : List XlsItem) (after : List (Nat × Bytes)) (formats : List CellFormat),
+      (∀ d ∈ defs, WF d.2) → (∀ i ∈ items, i.WF) → xlsFormatsOf items = (defs.map fun d => (d.1, render d.2)) →
+      xlsStylesOfRecords (xlsEncode items after) = .ok formats →
+      ∀ (i : Nat) (v : UInt64) (d1904 : Bool), formatF64 v formats[i]? d1904 =
+        typedF64 (((xlsXfsOf items)[i]?.map (logicalXls defs)).getD .other) v d1904) := by
+  refine ⟨?_, ?_, ?_⟩
+  · intro defs xfs l formats hwf hne hl h i v d
+    rw [xlsx_styles_roundtrip _ l hl] at h
+    have h' : xlsxStyles ((defs.map fun d => (decimal d.1, d.2)).map fun d => (d.1, render d.2))
+        (xfs.map fun x => some (decimal x)) = .ok formats := by
+      simpa [List.map_map, Function.comp_def] using h
+    exact (cell_typed_by_style_xlsx (defs.map fun d => (decimal d.1, d.2))
+      (by intro d hd; obtain ⟨d0, hd0, rfl⟩ := List.mem_map.mp hd; exact hwf d0 hd0)
+      (by intro d hd; obtain ⟨d0, hd0, rfl⟩ := List.mem_map.mp hd; exact hne d0 hd0)
+      _ formats h' i v d).2
+  · intro defs xfs l formats hwf hd hl h i v d
+    rw [xlsb_styles_roundtrip _ l hd hl] at h
+    exact (cell_typed_by_style_xlsb defs hwf xfs formats h i v d).2
+  · intro defs items after formats hwf hi hf h i v d
+    rw [xls_styles_roundtrip items hi after, hf] at h
+    exact (cell_typed_by_style_xls defs hwf _ formats h i v d).2
+
+/-- non-vacuity: a styles part of each kind with inert material that carries date formats — a cell-STYLE XF with
+    format 14 and a differential format `<numFmt numFmtId="164" formatCode="yyyy">` next to the real 164 = `0.0` —
+    decodes to the real table -/
+example :
+    let d : StyleDesc := ⟨[(164, "0.0".toList), (165, "[h]:mm".toList)], [0, 164, 165, 14]⟩
+    let mid : List SEv := [.start "x:cellStyleXfs".toList [], .start "x:xf".toList [("numFmtId".toList, decimal 14)],
+      .end_ "x:xf".toList, .end_ "x:cellStyleXfs".toList]
+    let post : List SEv := [.start "x:dxfs".toList [],
+      .start "x:numFmt".toList [("numFmtId".toList, decimal 164), ("formatCode".toList, utf8Bytes "yyyy".toList)],
+      .end_ "x:numFmt".toList, .end_ "x:dxfs".toList]
+    let lx : XlsxLayout := ⟨some "x".toList, false, [], [.other], mid, post, [("fontId".toList, decimal 0)],
+      [("xfId".toList, decimal 0)], [.start "x:alignment".toList [], .end_ "x:alignment".toList], []⟩
+    let lb : XlsbLayout := ⟨[⟨0x0116, [], false, 0⟩, ⟨0x0263, [0xE7, 0x04, 1, 0], true, 2⟩],
+      [⟨0x0272, Xlsb.le32 1, false, 0⟩, ⟨0x002F, brtXfPayload 14 0xFFFF [], false, 0⟩, ⟨0x0273, [], false, 0⟩],
+      [0x97, 0x02, 0x00], [⟨true, 3⟩], [], ⟨false, 0⟩⟩
+    lx.WF ∧ lb.WF ∧ d.WFb ∧
+    xlsxStylesOfEvents (xlsxEncode d lx) = .ok [.other, .other, .timeDelta, .dateTime] ∧
+    xlsbStylesOfBytes (xlsbEncode d lb) = .ok [.other, .other, .timeDelta, .dateTime] ∧
+    xlsStylesOfRecords (xlsEncode [.other 0x0031 [1, 2], .format 164 "0.0".toList false, .xf 0 0 [], .xf 164 5 [9],
+      .format 165 "[h]:mm".toList true, .xf 165 0 [], .xf 14 0 []] [(0x041E, [])])
+        = .ok [.other, .other, .timeDelta, .dateTime] := by
+  refine ⟨?_, ?_, ?_, ?_, ?_, ?_⟩
+  · refine ⟨?_, by decide, by decide, by decide, by decide, by decide⟩
+    intro p hp; cases hp; decide
+  · constructor <;> (intro r hr; simp at hr; rcases hr with rfl | rfl | rfl <;> exact ⟨⟨by decide, by decide⟩, by decide, by decide⟩)
+  · refine ⟨?_, ?_, by decide, by decide⟩
+    · intro f hf; simp at hf; rcases hf with rfl | rfl <;> exact ⟨by decide, by decide⟩
+    · intro x hx; simp at hx; rcases hx with rfl | rfl | rfl | rfl <;> decide
+  · decide +kernel
+  · decide +kernel
+  · decide +kernel
+
 
 /-! ## non-vacuity: the hypotheses above are met by non-trivial formats -/
 
